@@ -212,14 +212,20 @@ class Checker:
         """
         finfo = self.fileinfo
 
-        if "length" in self.info:
+        length = self.info.get("length")
+        if (length is None and self.meta_version == 2
+                and os.path.isfile(self.root)):
+            # single file v2 torrents need not carry info.length (BEP 52)
+            length = self.info["file tree"][self.name][""]["length"]
+
+        if length is not None:
             self.log_msg("%s points to a single file", self.root)
-            self.total = self.info["length"]
+            self.total = length
             self.paths.append(str(self.root))
 
             finfo[0] = {
                 "path": self.root,
-                "length": self.info["length"],
+                "length": length,
             }
 
             if self.meta_version > 1:
